@@ -208,13 +208,36 @@ fn resolve_mates(records: &mut [Record]) -> io::Result<()> {
         // rightmost, and the sign for any middle segment is undefined. If segments cover the same
         // coordinates then the choice of which is leftmost and rightmost is arbitrary..."
         let template_length = calculate_template_length(record, mate);
-        records[i].template_length = template_length;
+
+        // The leftmost segment is the first one with the smallest alignment start.
+        let mut leftmost = i;
+        let mut j = i;
+
+        while let Some(mate_index) = mate_indices[j] {
+            if records[mate_index].alignment_start < records[leftmost].alignment_start {
+                leftmost = mate_index;
+            }
+
+            j = mate_index;
+        }
+
+        records[i].template_length = if leftmost == i {
+            template_length
+        } else {
+            -template_length
+        };
 
         let mut j = i;
 
         while let Some(mate_index) = mate_indices[j] {
             let record = &mut records[mate_index];
-            record.template_length = -template_length;
+
+            record.template_length = if leftmost == mate_index {
+                template_length
+            } else {
+                -template_length
+            };
+
             mate_indices[j] = None;
             j = mate_index;
         }
